@@ -4,6 +4,7 @@ Used by the RT shards of C05/C07/C08/C10/C11.  Imports sc3 lazily (workers
 have initialised it already).
 """
 
+import os
 import itertools
 import threading
 import time
@@ -41,6 +42,22 @@ class HostWatch(threading.Thread):
         self.max_oversleep = 0.0
         self.max_step = 0.0
         self.samples = 0
+        self.max_load = 0.0        # 1-minute load average per core, highest seen
+
+    @property
+    def overloaded(self):
+        """More than two runnable processes per core: how late a thread of this
+        process comes to run says nothing about the library then."""
+        self._sample_load()
+        return self.max_load > 2.0
+
+    def _sample_load(self):
+        try:
+            ld = os.getloadavg()[0] / (os.cpu_count() or 1)
+        except OSError:
+            return
+        if ld > self.max_load:
+            self.max_load = ld
 
     def run(self):
         t_m = time.monotonic()
@@ -57,10 +74,13 @@ class HostWatch(threading.Thread):
                 self.max_step = step
             t_m, t_w = m, w
             self.samples += 1
+            if self.samples % 100 == 1:
+                self._sample_load()
 
     def reset(self):
         self.max_oversleep = 0.0
         self.max_step = 0.0
+        self.max_load = 0.0
 
     def stop(self):
         self.stop_flag = True
